@@ -3,6 +3,7 @@
 package route
 
 import (
+	"context"
 	"encoding/hex"
 	"encoding/json"
 	"errors"
@@ -166,6 +167,15 @@ func c23Table() []c23Row {
 			}
 		}
 	}
+	// the client goes away: the request context is cancelled after k of n events were handed over
+	for _, e := range append(append([]ep{}, libhoney...), otlpHTTP...) {
+		for _, v := range []string{"before-first", "after-1", "after-half", "after-all-but-one"} {
+			if e.endpoint == "event" && v != "before-first" && v != "after-1" {
+				continue
+			}
+			add(e, []string{"client-gone"}, v)
+		}
+	}
 	for _, v := range []string{"resourceSpans-number", "scopeSpans-string"} {
 		add(ep{"otlp-traces", "json", "inproc", E3Incoming}, []string{"ill-typed-body"}, v)
 	}
@@ -182,7 +192,7 @@ func TestVerif_C23(t *testing.T) {
 	run := verifkit.Start(t, "C23", "route")
 	defer run.Finish()
 	table := c23Table()
-	run.Rule(fmt.Sprintf("fault enumeration: a fixed table of %d rows = endpoint {/1/events, /1/batch (JSON, msgpack; incoming and peer listener), /v1/traces, /v1/logs (protobuf, JSON), gRPC TraceService/Export, LogsService/Export} x fault {none, bad dataset escape, environment lookup error, body read error, malformed body, ill-typed body, queue full, invalid events, and the combinations env+queue-full, env+malformed, invalid+queue-full} x variant (cut points, which events are refused/empty, compression); every row is executed K times (quick 2, thorough 300) with PRNG-chosen payloads of 1-5 events mixing own spans, peer-owned spans and trace-less events; non-trivial = a row with an injected fault; distinct = table row", len(table)))
+	run.Rule(fmt.Sprintf("fault enumeration: a fixed table of %d rows = endpoint {/1/events, /1/batch (JSON, msgpack; incoming and peer listener), /v1/traces, /v1/logs (protobuf, JSON), gRPC TraceService/Export, LogsService/Export} x fault {none, bad dataset escape, environment lookup error, body read error, malformed body, ill-typed body, queue full, invalid events, client gone (request context cancelled after k of n events were handed over), and the combinations env+queue-full, env+malformed, invalid+queue-full} x variant (cut points, which events are refused/empty, compression); every row is executed K times (quick 2, thorough 300) with PRNG-chosen payloads of 1-5 events mixing own spans, peer-owned spans and trace-less events; non-trivial = a row with an injected fault; distinct = table row", len(table)))
 	run.Assume("side effects are exactly: Collector.AddSpan/AddSpanFromPeer returning nil, UpstreamTransmission/PeerTransmission.Enqueue*; a span the collector refuses with ErrWouldBlock is 'refused because the queue was full'")
 	run.Assume("bad dataset escapes and short bodies are delivered over a loopback TCP connection to an http.Server serving the router's own mux; failing in-process body readers return io.ErrUnexpectedEOF, which is what net/http hands a handler whose client closed early")
 
@@ -203,6 +213,9 @@ func c23RunRow(t *testing.T, run *verifkit.Run, b *E3Bench, row c23Row, rng *ver
 	}
 	if row.has("invalid-events") && n < 3 {
 		n = 3
+	}
+	if row.has("client-gone") && row.Endpoint != "event" {
+		n = rng.Range(2, 5)
 	}
 	var evs []c23Ev
 	peerOwned := map[string]bool{}
@@ -378,6 +391,42 @@ func c23RunRow(t *testing.T, run *verifkit.Run, b *E3Bench, row c23Row, rng *ver
 
 	// ---- execute ----
 	b.Log.Reset()
+	if row.has("client-gone") {
+		// A client that times out or drops the connection mid-request = its request
+		// context is cancelled. The bench's collaborators are injected dependencies, so
+		// cancelling from inside the k-th hand-over is a deterministic way to place that
+		// moment between two events.
+		ctx, cancel := context.WithCancel(context.Background())
+		defer cancel()
+		req.Ctx = ctx
+		k := 0
+		switch row.Variant {
+		case "after-1":
+			k = 1
+		case "after-half":
+			k = (n + 1) / 2
+		case "after-all-but-one":
+			k = n - 1
+		}
+		if k < 1 && row.Variant != "before-first" {
+			k = 1
+		}
+		if k == 0 {
+			cancel()
+		} else {
+			handed := 0
+			b.Log.SetHook(func(o E3Obs) {
+				if o.Where == E3AtEnvLookup {
+					return
+				}
+				if handed++; handed == k {
+					cancel()
+				}
+			})
+			defer b.Log.SetHook(nil)
+		}
+		req.Note = fmt.Sprintf("%s; context cancelled after %d of %d events", req.Note, k, n)
+	}
 	var out c23Outcome
 	md := map[string]string{"x-honeycomb-team": key, "x-honeycomb-dataset": "c23"}
 	switch row.Transport {
